@@ -368,7 +368,7 @@ class Engine:
         if f"{ctx.module}.{e.id}" in s.classes: return [(st, ("class", f"{ctx.module}.{e.id}"))]
         if f"{ctx.module}.{e.id}" in s.funcs: return [(st, ("func", f"{ctx.module}.{e.id}"))]
         if e.id in ctx.imports: return [(st, ctx.imports[e.id])]
-        if e.id in ("range", "len", "bytes", "bytearray", "cast", "int", "bool", "super", "isinstance", "max", "min", "abs", "str", "float", "round", "next", "hasattr", "all", "any", "list", "hash", "enumerate", "zip", "tuple", "dict", "sorted", "reversed"):
+        if e.id in ("range", "len", "bytes", "bytearray", "cast", "int", "bool", "super", "isinstance", "max", "min", "abs", "str", "float", "round", "next", "hasattr", "all", "any", "list", "hash", "enumerate", "zip", "tuple", "dict", "sorted", "reversed", "getattr"):
             return [(st, ("builtin", e.id))]
         if e.id in s.exc_parents or e.id in ("ValueError", "Exception"): return [(st, ("excclass", e.id))]
         raise Unsupported(f"name {e.id} line {e.lineno}")
@@ -801,6 +801,17 @@ class Engine:
             if kind == "bmeth": return s.bmeth(f[1], f[2], st, args, ctx, node, kw)
             if kind == "builtin": return s.builtin(f[1], st, args, ctx, node, kw)
             if kind == "excclass": return [(st, ("exc", f[1]))]
+            if kw and kind in ("func", "bound"):
+                # keyword arguments of a repository function: bound to its parameters by name
+                fn_ = s.funcs[f[1]][0]; params = [a.arg for a in fn_.args.args]; full = ([f[2]] if kind == "bound" else []) + list(args)
+                if fn_.args.vararg or fn_.args.kwarg or any(k not in params[len(full):] for k in kw): raise Unsupported(f"keyword arguments line {node.lineno}")
+                defaults = fn_.args.defaults; nd = len(defaults)
+                for i in range(len(full), len(params)):
+                    if params[i] in kw: full.append(kw[params[i]]); continue
+                    di = i - (len(params) - nd)
+                    if di < 0: raise Unsupported(f"missing argument {params[i]}")
+                    (st_, dv), = s.eval(defaults[di], st, ctx); full.append(dv)
+                return s.call(f[1], st, full, ctx, node)
             if kw: raise Unsupported(f"kwargs line {node.lineno}")
             if kind == "func": return s.call(f[1], st, args, ctx, node)
             if kind == "bound": return s.call(f[1], st, [f[2]] + args, ctx, node)
@@ -820,6 +831,20 @@ class Engine:
                 res.append((st1, r if r is not None else val))
             return res
         if name in ("tuple", "list") and len(args) == 1 and isinstance(args[0], (list, tuple)): return [(st, tuple(args[0]) if name == "tuple" else list(args[0]))]
+        if name == "getattr" and 2 <= len(args) <= 3 and isinstance(args[1], str):
+            outs = []
+            probe_ctx = ctx
+            saved = ctx.root.fork_implicit; ctx.root.fork_implicit = True
+            try:
+                try: res_ = s.getattr(st, args[0], args[1], ctx, node)
+                except Unsupported:
+                    if len(args) == 3: res_ = [(st, Raised("AttributeError", args[1]))]
+                    else: raise
+            finally: ctx.root.fork_implicit = saved
+            for st1, v in res_:
+                if isinstance(v, Raised) and v.exc == "AttributeError" and len(args) == 3: outs.append((st1, args[2]))
+                else: outs.append((st1, v))
+            return outs
         if name == "len":
             v = args[0]
             if isinstance(v, SBytes): return [(st, SInt(v.n))]
